@@ -44,10 +44,17 @@ RU32(bs, at) == RI32(bs, at)      \* for values < 2^31
 RB(bs, at, n) == SubSeq(bs, at + 1, at + n)
 
 MapS(q, F(_)) == [i \in 1 .. Len(q) |-> F(q[i])]
-Cat(q) == FlattenSeq(q)
-CatMap(q, F(_)) == FlattenSeq([i \in 1 .. Len(q) |-> F(q[i])])
-RECURSIVE SumSeq(_)
-SumSeq(q) == IF q = <<>> THEN 0 ELSE Head(q) + SumSeq(Tail(q))
+\* concatenation and sum by halving (FlattenSeq of the community modules recurses once per
+\* element: quadratic, and too deep for the 65536-element cases)
+RECURSIVE CatR(_, _, _)
+CatR(q, lo, hi) == IF lo > hi THEN <<>> ELSE IF lo = hi THEN q[lo]
+                   ELSE LET m == (lo + hi) \div 2 IN CatR(q, lo, m) \o CatR(q, m + 1, hi)
+Cat(q) == CatR(q, 1, Len(q))
+CatMap(q, F(_)) == Cat([i \in 1 .. Len(q) |-> F(q[i])])
+RECURSIVE SumR(_, _, _)
+SumR(q, lo, hi) == IF lo > hi THEN 0 ELSE IF lo = hi THEN q[lo]
+                   ELSE LET m == (lo + hi) \div 2 IN SumR(q, lo, m) + SumR(q, m + 1, hi)
+SumSeq(q) == SumR(q, 1, Len(q))
 MaxSeq(q) == IF q = <<>> THEN -1 ELSE CHOOSE m \in {q[i] : i \in 1 .. Len(q)} : \A i \in 1 .. Len(q) : q[i] <= m
 IsU8(x)  == x \in 0 .. 255
 IsU16(x) == x >= 0 /\ x <= 65535
@@ -216,8 +223,11 @@ DecPost(bs) ==
 \* then the tag strings; all offsets are relative to the storage area
 NameHdrSize(v) == 6 + 12 * Len(v.recs) + (IF v.tags # <<>> THEN 2 + 4 * Len(v.tags) ELSE 0)
 NameStrs(v) == MapS(v.recs, LAMBDA r : r.s) \o v.tags
-RECURSIVE Pref(_, _, _)
-Pref(q, i, acc) == IF i > Len(q) THEN <<>> ELSE <<acc>> \o Pref(q, i + 1, acc + q[i])
+RECURSIVE PrefR(_, _, _, _)
+PrefR(q, lo, hi, base) ==      \* base + sum of q[lo .. i-1], for i in lo .. hi
+  IF lo > hi THEN <<>> ELSE IF lo = hi THEN <<base>>
+  ELSE LET m == (lo + hi) \div 2 IN PrefR(q, lo, m, base) \o PrefR(q, m + 1, hi, base + SumR(q, lo, m))
+Pref(q, i, acc) == PrefR(q, i, Len(q), acc)
 NameOffs(v) == Pref(MapS(NameStrs(v), Len), 1, 0)          \* offset of every string in the storage area
 NameInFormat(v) ==
   /\ \A i \in 1 .. Len(v.recs) : LET r == v.recs[i] IN
